@@ -1,5 +1,6 @@
 from __future__ import annotations
 
+from copy import copy
 from dataclasses import dataclass
 import sys
 
@@ -60,7 +61,10 @@ class GrammaticalEvolutionRepresentation(
 
     def genotype_to_phenotype(self, genotype: Genotype) -> TreeNode:
         rand: RandomSource = ListWrapper(genotype.dna)
-        return random_node(rand, self.grammar, self.grammar.starting_symbol, self.decider)
+        # every decision of the mapping, structural ones included, is read from the genes
+        decider = copy(self.decider)
+        decider.random = rand  # type: ignore
+        return random_node(rand, self.grammar, self.grammar.starting_symbol, decider)
 
     def mutate(self, random: RandomSource, genotype: Genotype, **kwargs) -> Genotype:
         rindex = random.randint(0, self.gene_length - 1)
